@@ -9,19 +9,9 @@ From PJ.Model Require Import Base Terms.
 From PJ.Model Require Lookup Encoder.
 From PJ.Tie Require Import PyPrims.
 From PJ.Gen Require Import LookupEncGen OptionsGen EncodeGen.
-From PJ.Tie Require Import LookupEncTie.
+From PJ.Tie Require Import StrN LookupEncTie.
 Module E := PJ.Model.Encoder.
 Local Open Scope Z_scope.
-
-(* the string structure of the model *)
-Definition SN : strops := {|
-  carrier := str;
-  s_eqb := str_eqb;
-  s_is_empty := @is_nil N;
-  s_empty := [];
-  s_add := @app N;
-  s_rpartition := py_rpartition N.eqb;
-  s_lit := map Z.to_N |}.
 
 (* ------------------------------------------------------------------ split_iri *)
 Lemma rpart_single (c : N) (s : str) : rpart N.eqb [c] s = E.rpartition c s.
